@@ -18,6 +18,8 @@ CO = 'concepts/algorithms/common.py'
 FC = 'concepts/algorithms/fcbo.py'
 VZ = 'concepts/visualize.py'
 JU = 'concepts/junctors.py'
+FB = 'concepts/formats/base.py'
+FF = 'concepts/formats/fimi.py'
 AI = 'concepts/algorithms/__init__.py'
 CM = 'concepts/_common.py'
 TL = 'concepts/tools.py'
@@ -212,6 +214,14 @@ MUTANTS = [
     (CX, "        elif ignore_lattice is None and 'lattice' not in self.__dict__:", "        elif ignore_lattice is None:", ['contexts.todict.none'], 'breaks'),
     (M, "                 (X._id, Y._id)))", "                 (Y._id, X._id)))", ['matrices.Relation.__reduce__'], 'breaks'),
     (LT, "                 tuple(u.index for u in c.upper_neighbors),", "                 tuple(u.dindex for u in c.upper_neighbors),", ['lattices._tolist'], 'breaks'),
+    (FB, "        with open(filename, encoding=encoding, newline=cls.newline) as f:\n            return cls.loadf(f, **kwargs)",
+         "        with open(filename, encoding=encoding) as f:\n            return cls.loadf(f, **kwargs)", ['formats.Format.load'], 'breaks'),
+    (FB, "            return self.by_suffix[suffix.lower()]", "            return self.by_suffix[suffix]", ['formats.FormatMeta.infer_format'], 'breaks'),
+    (FF, "    rows = iter_fimi_rows(bools)", "    rows = filter(None, iter_fimi_rows(bools))", ['formats.fimi.dump_file'], 'breaks'),
+    (FF, "        yield [i for i, value in enumerate(row) if value]", "        yield [i + 1 for i, value in enumerate(row) if value]", ['formats.fimi.iter_fimi_rows'], 'breaks'),
+    (FF, "        yield [i for i, value in enumerate(row) if value]", "        yield [i for i, value in enumerate(row) if not value]", ['formats.fimi.iter_fimi_rows'], 'breaks'),
+    (CX, "        if args.serialized is not None:\n            return cls.fromdict(args.serialized)\n        return cls(args.objects, args.properties, args.bools)\n\n    @classmethod\n    def fromfile",
+         "        return cls(args.objects, args.properties, args.bools)\n\n    @classmethod\n    def fromfile", ['contexts.fromstring'], 'breaks'),
 ]
 
 
